@@ -21,12 +21,12 @@ for d in sorted(glob.glob('/verif/seeded/*/')):
     m = {
         "id": mid,
         "property": mid.split('-')[0],
-        "breaks": o.get('summary', ''),
-        "needs_to_manifest": o.get('needs', ''),
+        "breaks": (o.get('summary') or o.get('breaks', '')),
+        "needs_to_manifest": (o.get('needs') or o.get('needs_to_manifest', '')),
         "demonstration": "demo_test.go (package named in its first line; copied into that package of a scratch worktree)",
         "confirmed": "tools/confirm_mutant.sh %s: in a scratch worktree of /repo: patch applies, `go build ./...` and the pinned suite `go test -vet=off -count=1 ./...` pass with it, the demonstration fails with the patch and passes without it" % mid,
-        "author_verification": o.get('verified', ''),
-        "check_run": "tools/sweep_mutants.sh: git -C /repo apply patch.diff; ./check.sh %s quick; git -C /repo checkout -- . (at /repo %s)" % (mid.split('-')[0], head),
+        "author_verification": (o.get('verified') or o.get('author_verification', '')),
+        "check_run": "tools/wtsweep.sh %s (scratch worktree of /repo %s with patch.diff applied; ./check.sh %s quick from a scratch copy of /verif with VERIF_REPO pointing at it) - equivalent to tools/trymutant.sh, which applies the patch to /repo itself and undoes it" % (mid, head, mid.split('-')[0]),
         "check_result": {"exit=1": "DETECTED (exit 1, VIOLATION line)", "exit=0": "MISSED (exit 0)", "NOAPPLY": "patch no longer applies at HEAD"}.get(r[0], r[0]),
         "first_violation": r[1],
         "notes": notes.get(mid, ''),
